@@ -327,19 +327,20 @@ Definition check_rewriters (k : core) (rws : list (str * core)) : lres unit :=
 
 Definition kinds_fuel (k : core) : nat := 4000.
 
+Definition doc_rewriters (d : doc) : list (str * core) :=
+  match d_rewriters d with Some rws => rws | None => [] end.
+
 (* RuleConfig::try_from *)
 Definition load (d : doc) : lres (list str * list str) :=
   let k := d_core d in
   match load_core k (d_globals d) [] with
   | LErr e => LErr e
   | LOk orders =>
-      match (match d_rewriters d with
-             | None => LOk tt
-             | Some rws =>
-                 match load_rewriters rws (d_globals d) (core_defined_vars k) with
-                 | LErr e => LErr e
-                 | LOk _ => check_rewriters k rws
-                 end
+      (* a document without a `rewriters` section defines no rewriter *)
+      match (let rws := doc_rewriters d in
+             match load_rewriters rws (d_globals d) (core_defined_vars k) with
+             | LErr e => LErr e
+             | LOk _ => check_rewriters k rws
              end) with
       | LErr e => LErr e
       | LOk _ =>
